@@ -2,8 +2,11 @@
 (spec/GraphLife.tla, spec/TraceGraphLife.tla, chunk plans from spec/JacChunks.tla)
 
 1. TLC, exhaustive: on every shape of the GraphLife family (chain / diamond trunks, 1-3 heads, deep
-   heads, vector parameters, two features, every add/mul = saves-nothing/saves-tensors assignment in
-   the thorough tier) and from every state reachable by <= 3 calls, the sweeps torchjd issues for a
+   heads, vector parameters, two features; heads with their own parameters or PARAMETER-FREE
+   (tasks_params[i] = [], loss computed from the features alone) in the first / last / middle
+   positions - every subset of positions in the thorough tier; every add/mul =
+   saves-nothing/saves-tensors assignment in the thorough tier) and from every state reachable by
+   <= 3 calls, the sweeps torchjd issues for a
    call (chunk sweeps of JacChunks!ImplPlan; per-task sweeps then trunk sweeps for mtl_backward)
    fail iff ONE torch.autograd.backward sweep with the caller's flag fails, free exactly what that
    sweep frees, and free nothing with retain_graph=True – for every chunk size.
@@ -34,6 +37,8 @@ from ..par import pmap
 from ..tlc import SPEC_DIR, run_tlc
 
 PID = "C13"
+ALL_FREE_SETS = "{{}, {1}, {2}, {3}, {1, 2}, {1, 3}, {2, 3}, {1, 2, 3}}"
+MOD2_QUICK, MOD2_THOROUGH = 16, 32
 
 
 # ------------------------------------------------------------------------------------------------
@@ -198,6 +203,31 @@ def nontrivial(item: dict) -> bool:
     return any(c["fn"] != "T" and not c["retain"] for c in cs[:-1]) or any(c["fn"] != "T" and c["k"] != 0 for c in cs)
 
 
+def free_saving_heads(shape: dict) -> list[int]:
+    """Positions (1-based) of the parameter-free heads that contain an op saving tensors."""
+    g, feats = shape["graph"], set(shape["feats"])
+    out = []
+    for pos, (loss, tp) in enumerate(zip(shape["losses"], shape["taskp"]), start=1):
+        if tp:
+            continue
+        seen, todo = {loss}, [loss]
+        while todo:
+            for c in g[todo.pop() - 1]["c"]:
+                if c not in seen and c not in feats:
+                    seen.add(c)
+                    todo.append(c)
+        if any(g[n - 1]["k"] == "mul" for n in seen):
+            out.append(pos)
+    return out
+
+
+def exercises_free_head(item: dict) -> bool:
+    """mtl_backward is called on a shape that has a parameter-free head with saved tensors, and it is
+    not the last call of the history (its effect on the graph is then met by another call, not only
+    by the probes)."""
+    return bool(free_saving_heads(item["shape"])) and any(c["fn"] == "M" for c in item["calls"][:-1])
+
+
 # ------------------------------------------------------------------------------------------------
 def random_items(seed: int, n: int) -> list[dict]:
     rng = random.Random(seed * 65537 + 13)
@@ -296,7 +326,7 @@ def judge(ctx: Ctx, r: dict) -> None:
 def run(ctx: Ctx, replay: str | None) -> None:
     torch.manual_seed(ctx.seed)
     quick = ctx.tier == "quick"
-    ctx.rule = ("one case = (graph shape with its add/mul assignment, history of <= 3 calls among torchjd.backward, "
+    ctx.rule = ("one case = (graph shape: skeleton, which heads are parameter-free, add/mul assignment; history of <= 3 calls among torchjd.backward, "
                 "torchjd.mtl_backward, torch.autograd.backward with roots/targets, chunk size, retain flag); distinct by "
                 "content; non-trivial = the graph has saved tensors and the history has a torchjd call with "
                 "retain_graph=False followed by another call, or a chunked torchjd call")
@@ -309,6 +339,9 @@ def run(ctx: Ctx, replay: str | None) -> None:
         "not reach the trunk around the features (DESIGN R10), and whose features are 'the last shared representation': "
         "none computed from another one, each used by some loss (all decided exactly by GraphLife!MtlOK)",
         "a history stops being compared at its first failing call (torch frees part of the graph before failing)",
+        "a parameter-free head (tasks_params[i] = []) is obtained from a head with parameters by replacing every use of "
+        "its parameters by a use of the feature it is computed from (GraphLife!StripHeads): it keeps its ops and their "
+        "saved tensors; the former parameters remain as unused leaves",
         "'an identical second call adds an identical update' is checked as equality of the .grad increments of "
         "identical successful torchjd calls within a history (integers, Sum aggregator)",
     ]
@@ -327,8 +360,12 @@ def run(ctx: Ctx, replay: str | None) -> None:
 
     base = open(SPEC_DIR / "MC_GraphLife_quick.cfg").read()
     inv_export = "INVARIANT OnlyLastSweepFrees\nINVARIANT Export"
+    if not quick:       # every subset of the head positions is parameter-free in some shape
+        base = base.replace("FreeSets = {{}, {1}, {2, 3}}", "FreeSets = " + ALL_FREE_SETS)
+    if "FreeSets = " + (ALL_FREE_SETS if not quick else "{{}, {1}, {2, 3}}") not in base:
+        raise MachineryError("MC_GraphLife_quick.cfg: FreeSets line not as expected")
     mc_cfg = base if not quick else base.replace("AllPatterns = TRUE", "AllPatterns = FALSE")
-    mod2 = 8 if quick else 12
+    mod2 = MOD2_QUICK if quick else MOD2_THOROUGH
     h2_cfg = (base.replace("INVARIANT OnlyLastSweepFrees", inv_export).replace("TrackHist = FALSE", "TrackHist = TRUE")
               .replace("MaxCalls = 3", "MaxCalls = 2")
               .replace("SampleMod = 1", f"SampleMod = {mod2}").replace("SamplePick = 0", f"SamplePick = {ctx.seed % mod2}"))
@@ -376,6 +413,13 @@ def run(ctx: Ctx, replay: str | None) -> None:
         if nontrivial(r["item"]):
             ctx.nontrivial(hist_key(r["item"]))
     ctx.count("histories_replayed", len(results))
+    n_free = sum(1 for r in results if exercises_free_head(r["item"]))
+    ctx.count("histories_with_mtl_backward_on_a_parameter_free_saving_head_then_another_call", n_free)
+    ctx.count("free_head_position_sets_replayed",
+              len({tuple(free_saving_heads(r["item"]["shape"])) for r in results} - {()}))
+    if n_free < 50:
+        raise MachineryError(f"vacuous coverage of parameter-free heads: only {n_free} replayed histories call "
+                             f"mtl_backward on such a shape and continue")
     ctx.count("histories_ending_in_a_failing_call", sum(1 for r in results if r["steps"] and r["steps"][-1]["tw"]["outcome"] == "fail"))
     rich = [r for r in results if nontrivial(r["item"]) and any(s["tj"]["freed"] for s in r["steps"])]
     failing = [r for r in rich if r["steps"][-1]["tw"]["outcome"] == "fail"]
@@ -401,6 +445,8 @@ def run(ctx: Ctx, replay: str | None) -> None:
     summ = validate_episodes(ctx, rres + results[::step])
     ctx.extra["trace_summary"] = summ
     ctx.count("driver_histories", len(rres))
+    ctx.count("driver_histories_with_mtl_backward_on_a_parameter_free_saving_head_then_another_call",
+              sum(1 for r in rres if exercises_free_head(r["item"])))
     r = rres[len(rres) // 2]
     ctx.sample({"driver_graph": r["item"]["shape"]["graph"], "history": [call_text(c) for c in r["item"]["calls"]],
                 "observed": [{"torchjd": s["tj"], "twin": s["tw"]} for s in r["steps"]]})
